@@ -208,8 +208,9 @@ func vC14Name(n string, nl int) [][]byte {
 	}
 	// the leftmost label may be one that needs escaping in presentation form: ending in a backslash, containing a
 	// dot, or a backslash followed by a dot
-	// (quick tier: only the question name and the first pattern; C14.special=2: every name)
-	if nl > 0 && (vParam("C14.special", 1) == 2 || (vParam("C14.special", 1) == 1 && (n == "q" || n == "p0_"))) {
+	// (C14.special=3: only the question name; 1: also the first pattern; 2: every name)
+	sp := vParam("C14.special", 1)
+	if nl > 0 && (sp == 2 || (sp == 1 && (n == "q" || n == "p0_")) || (sp == 3 && n == "q")) {
 		switch vChoice(n+"special", 4) {
 		case 1:
 			ls[0] = append(ls[0], '\\')
